@@ -1688,4 +1688,40 @@ example : ∃ p, parseString .document reachDocEnv creationDocText = .ok p ∧ p
   subst hs
   exact ⟨p, h2, h3, h4, h5⟩
 
+/-! ## The round trip from the invariant alone
+
+  The history is not part of the statement any more: ANY forest with the invariant of C04 (`Forest.Inv`), however it
+  was reached — by `XCall`, `PCall`, `IdOp` or `Op ⊕ COp` histories, for each of which the invariant is a theorem. -/
+
+/-- ⟦C01_inv_roundtrip⟧ every document root of a forest with the invariant, consolidation never switched off, whose
+    values are in the XML domain and whose names are writable, serialises and parses back to exactly that tree. -/
+theorem C01_inv_roundtrip (f : Forest) (hi : f.Inv) (hoff : f.everOff = false)
+    (r : HTree) (hr : r ∈ f.roots)
+    (hdoc : r.value.isDocument = true) (env' : Env) (henv : envOK env' = true)
+    (hval : r.erase.allNodes (fun v _ => valueOK env' v) = true)
+    (hid : (xmlIdValues env' r.erase).Nodup) (hone : singleRoot r.erase = true)
+    (hwr : namesWritable env' r.erase [] = some true) :
+    ∃ s p, toXmlString env' r.erase [] = .ok s ∧ parseString .document env' s = .ok p ∧
+      p.tree = r.erase ∧ p.env = env' ∧ deepEqual p.tree r.erase = true := by
+  have hrep : Representable env' r.erase = true := by
+    rw [(Reach.representable_root hi hoff hr env').2]
+    simp [henv, hdoc, hval, hid, hone]
+  exact C01_roundtrip_writable env' r.erase hrep hwr
+
+/-- The same for `parse_fragment` (any number of top-level elements, top-level text allowed). -/
+theorem C01_inv_roundtrip_fragment (f : Forest) (hi : f.Inv) (hoff : f.everOff = false)
+    (r : HTree) (hr : r ∈ f.roots)
+    (hdoc : r.value.isDocument = true) (env' : Env) (henv : envOK env' = true)
+    (hval : r.erase.allNodes (fun v _ => valueOK env' v) = true)
+    (hid : (xmlIdValues env' r.erase).Nodup)
+    (hwr : namesWritable env' r.erase [] = some true) :
+    ∃ s p, toXmlString env' r.erase [] = .ok s ∧ parseString .fragment env' s = .ok p ∧
+      p.tree = r.erase ∧ p.env = env' ∧ deepEqual p.tree r.erase = true := by
+  have hrep : RepresentableFragment env' r.erase = true := by
+    rw [(Reach.representable_root hi hoff hr env').1]
+    simp [henv, hdoc, hval, hid]
+  obtain ⟨s, hs⟩ := (C01_serialises env' r.erase hrep).mpr hwr
+  obtain ⟨p, h1, h2, h3, h4⟩ := C01_roundtrip_fragment_identical env' r.erase hrep s hs
+  exact ⟨s, p, hs, h1, h2, h3, h4⟩
+
 end XotModel.Props
